@@ -140,7 +140,7 @@ def letter_name(lt):
 REGIMES = {"disl": 4, "yield": 6, "minvisc": 0, "diff": 1, "maxvisc": 7}
 TEXTURES = ["random", "cluster", "girdle", "single", "aligned"]
 VOLS = ["uniform", "geometric"]
-NGRAINS = [5, 2, 3, 8]
+NGRAINS = [5, 2, 3, 8, 1]
 PRM = {  # name -> overrides (default first)
     "default": {},
     "M0": {"gbm_mobility": 0.0},
